@@ -52,9 +52,9 @@ were measured while other work was running on the machine)
 |---|---|---|---|---|---|
 ''' + '\n'.join(trows) + '''
 
-Rows C01-C03 are from the first thorough pass (C01 before the syntax zoo and the retraise / nameidx menus were added: those
-items were run at the thorough bounds separately with `VERIF_ITEM_FILTER`); all other rows are from the second pass at the
-final code. A complete thorough pass takes about five to six hours on 16 cores.
+Rows C01 and C02 are from the first thorough pass (C01 before the syntax zoo and the retraise / nameidx menus were added:
+those items were run at the thorough bounds separately with `VERIF_ITEM_FILTER`); all other rows are from the second pass at
+the final code. A complete thorough pass takes about five to six hours on 16 cores.
 '''
 path = os.path.join(VERIF, 'DESIGN.md')
 s = open(path).read()
